@@ -620,3 +620,472 @@ Proof.
   unfold keys_okb. rewrite Hnd. simpl. rewrite forallb_forall in *. intros p Hp.
   specialize (Hv p Hp). unfold valid_param in Hv. rewrite !andb_true_iff in Hv. tauto.
 Qed.
+
+(* ------------------------------------------------------------------------ *)
+(** * Workspace tokens: which directory each one denotes *)
+
+Lemma find_map_key : forall (f : str -> str) n known,
+  In n known ->
+  find (fun e : str * str => str_eqb n (fst e)) (map (fun m => (m, f m)) known) = Some (n, f n).
+Proof.
+  intros f n. induction known as [|m known IH]; intros H; [contradiction|]. simpl.
+  destruct (str_eqb n m) eqn:E.
+  - apply str_eqb_eq in E. subst. reflexivity.
+  - destruct H as [H|H]; [subst; rewrite str_eqb_refl in E; discriminate|]. auto.
+Qed.
+
+Lemma dir_of_map : forall (f : str -> str) n known,
+  In n known -> dir_of n (map (fun m => (m, f m)) known) = f n.
+Proof. intros. unfold dir_of. rewrite find_map_key; auto. Qed.
+
+Lemma dir_of_in : forall n dirs, In n (map fst dirs) -> In (n, dir_of n dirs) dirs.
+Proof.
+  intros n. induction dirs as [|[m v] dirs IH]; intros H; [contradiction|].
+  unfold dir_of. simpl. destruct (str_eqb n m) eqn:E.
+  - apply str_eqb_eq in E. subst. left. reflexivity.
+  - right. simpl in H. destruct H as [H|H]; [subst; rewrite str_eqb_refl in E; discriminate|].
+    apply IH in H. exact H.
+Qed.
+
+(** the workspace pass maps the token of every step staged so far to the
+    directory recorded for it in the instance *)
+Theorem ws_pass_lookup : forall d n r,
+  wf_tableb (ws_T d) = true -> In n (map fst (d_dirs d)) ->
+  sim (ws_T d) (ws_tok n ++ r) = dir_of n (d_dirs d) ++ sim (ws_T d) r.
+Proof.
+  intros d n r Hwf Hin. apply sim_token; [apply wf_tableb_spec; exact Hwf|].
+  unfold ws_T. apply (in_map (fun nd => (ws_tok (fst nd), snd nd))) with (x := (n, dir_of n (d_dirs d))).
+  apply dir_of_in. exact Hin.
+Qed.
+
+(** $(WORKSPACE) *)
+Lemma rec_T_wf : forall d, wf_table (rec_T d).
+Proof.
+  intros d. apply wf_tableb_spec. reflexivity.
+Qed.
+
+Theorem rec_pass_lookup : forall d r,
+  sim (rec_T d) (WORKSPACE_TOK ++ r) = d_ws d ++ sim (rec_T d) r.
+Proof. intros. apply sim_token; [apply rec_T_wf|left; reflexivity]. Qed.
+
+Theorem rec_pass_model : forall d x,
+  token_free (rec_T d) (sim (rec_T d) x) = true -> rec_pass Model d x = sim (rec_T d) x.
+Proof. intros. unfold rec_pass, pass. apply seq_eq_sim; auto. apply rec_T_wf. Qed.
+
+(** ** How staging builds the descriptors *)
+Fixpoint used_go (ps : list param) (used : list (str * list str)) (l : list pre) : list (str * list str) :=
+  match l with
+  | [] => used
+  | p :: l' => used_go ps (used ++ [(s_name (pr_step p), step_used ps used p)]) l'
+  end.
+
+Definition pre_names (l : list pre) : list str := map (fun p => s_name (pr_step p)) l.
+
+Lemma used_go_app : forall ps l1 l2 used,
+  used_go ps used (l1 ++ l2) = used_go ps (used_go ps used l1) l2.
+Proof. intros ps. induction l1 as [|p l1 IH]; intros; simpl; auto. Qed.
+
+Lemma used_go_ext : forall ps l used, exists ext,
+  used_go ps used l = used ++ ext /\ map fst ext = pre_names l.
+Proof.
+  intros ps. induction l as [|p l IH]; intros used; simpl.
+  - exists []. rewrite app_nil_r. auto.
+  - destruct (IH (used ++ [(s_name (pr_step p), step_used ps used p)])) as [ext [E1 E2]].
+    exists ((s_name (pr_step p), step_used ps used p) :: ext). split.
+    + rewrite E1, <- app_assoc. reflexivity.
+    + simpl. rewrite E2. reflexivity.
+Qed.
+
+Lemma used_go_fst : forall ps l used, map fst (used_go ps used l) = map fst used ++ pre_names l.
+Proof.
+  intros. destruct (used_go_ext ps l used) as [ext [E1 E2]]. rewrite E1, map_app, E2. reflexivity.
+Qed.
+
+Lemma plan_go_in : forall root ps l used seen ds d,
+  plan_go root ps used seen l = Some ds -> In d ds ->
+  exists l1 p l2, l = l1 ++ p :: l2 /\
+    In d (step_descs root ps (used_go ps used l1) p (step_used ps (used_go ps used l1) p)).
+Proof.
+  intros root ps. induction l as [|p l IH]; intros used seen ds d H Hd; simpl in H.
+  - inversion H; subst. contradiction.
+  - destruct (pr_rej p); [discriminate|].
+    destruct (first_wins seen (step_descs root ps used p (step_used ps used p))) as [r seen'] eqn:Ef.
+    destruct (plan_go root ps (used ++ [(s_name (pr_step p), step_used ps used p)]) seen' l) as [r2|] eqn:Ep;
+      [|discriminate].
+    inversion H; subst. apply in_app_or in Hd. destruct Hd as [Hd|Hd].
+    + exists [], p, l. split; auto. simpl.
+      destruct (first_wins_spec _ _ _ _ Ef) as [_ [B _]]. apply B. exact Hd.
+    + destruct (IH _ _ _ _ Ep Hd) as [l1 [q [l2 [E Hin]]]].
+      exists (p :: l1), q, l2. split; [simpl; congruence|]. simpl. exact Hin.
+Qed.
+
+Lemma step_descs_in : forall root ps used p u d,
+  In d (step_descs root ps used p u) ->
+  d_step d = pr_step p /\
+  d_ws d = own_ws root ps (s_name (pr_step p)) u (d_row d) /\
+  d_name d = iname ps (s_name (pr_step p)) u (d_row d) /\
+  d_caps d = pr_caps p /\
+  d_dirs d = map (fun n => (n, wsdir root ps used (hub_of (pr_step p)) (d_row d) n)) (map fst used) /\
+  (u = [] -> d_row d = None) /\ (u <> [] -> exists i, d_row d = Some i /\ i < nrows ps).
+Proof.
+  intros root ps used p u d H. unfold step_descs in H. destruct u as [|k u].
+  - destruct H as [H|[]]. subst d. simpl. repeat split; auto. intros F. contradiction.
+  - apply in_map_iff in H. destruct H as [i [E Hi]]. subst d. simpl. repeat split; auto.
+    + intros F. discriminate.
+    + intros _. exists i. split; auto. apply in_seq in Hi. lia.
+Qed.
+
+Lemma find_app_first {A} : forall (f : A -> bool) l1 x l2,
+  (forall y, In y l1 -> f y = false) -> f x = true -> find f (l1 ++ x :: l2) = Some x.
+Proof.
+  intros f. induction l1 as [|y l1 IH]; intros x l2 H Hx; simpl.
+  - rewrite Hx. reflexivity.
+  - rewrite (H y); [|left; reflexivity]. apply IH; auto. intros z Hz. apply H. right. exact Hz.
+Qed.
+
+Lemma used_of_used_go : forall ps used l1 p l2,
+  ~ In (s_name (pr_step p)) (map fst used ++ pre_names l1) ->
+  used_of (used_go ps used (l1 ++ p :: l2)) (s_name (pr_step p)) = step_used ps (used_go ps used l1) p.
+Proof.
+  intros ps used l1 p l2 Hnot. rewrite used_go_app. simpl.
+  destruct (used_go_ext ps l2 (used_go ps used l1 ++ [(s_name (pr_step p), step_used ps (used_go ps used l1) p)]))
+    as [ext [E1 _]].
+  rewrite E1, <- app_assoc. simpl. unfold used_of.
+  rewrite find_app_first with (x := (s_name (pr_step p), step_used ps (used_go ps used l1) p)); auto.
+  - intros y Hy. simpl. apply str_eqb_neq. intros E. apply Hnot.
+    rewrite <- (used_go_fst ps l1 used). rewrite E. apply in_map. exact Hy.
+  - simpl. apply str_eqb_refl.
+Qed.
+
+Lemma NoDup_split_unique {A B} : forall (f : A -> B) a q r a' q' r',
+  NoDup (map f (a ++ q :: r)) -> a ++ q :: r = a' ++ q' :: r' -> f q = f q' ->
+  a = a' /\ q = q' /\ r = r'.
+Proof.
+  intros f. induction a as [|x a IH]; intros q r a' q' r' Hnd E Hf.
+  - destruct a' as [|x' a']; simpl in E.
+    + inversion E. auto.
+    + exfalso. inversion E; subst. simpl in Hnd. inversion Hnd; subst. apply H1.
+      rewrite Hf. apply in_map. apply in_or_app. right. left. reflexivity.
+  - destruct a' as [|x' a']; simpl in E.
+    + exfalso. inversion E; subst. simpl in Hnd. inversion Hnd; subst. apply H1.
+      rewrite <- Hf. apply in_map. apply in_or_app. right. left. reflexivity.
+    + inversion E; subst. simpl in Hnd. inversion Hnd; subst.
+      destruct (IH q r a' q' r' H3 H1 Hf) as [E1 [E2 E3]]. subst. auto.
+Qed.
+
+(** funnel parents: the step's root directory *)
+Lemma wsdir_funnel : forall root ps used hubs row n,
+  n <> SOURCE -> In n hubs -> wsdir root ps used hubs row n = msp root [n].
+Proof.
+  intros root ps used hubs row n Hs Hh. unfold wsdir.
+  apply str_eqb_neq in Hs. rewrite Hs. apply str_mem_In in Hh. rewrite Hh. reflexivity.
+Qed.
+
+(** ordinary references: the same combination's directory *)
+Lemma wsdir_ordinary : forall root ps used hubs row n,
+  n <> SOURCE -> ~ In n hubs ->
+  wsdir root ps used hubs row n =
+  own_ws root ps n (used_of used n) (match used_of used n with [] => None | _ => row end).
+Proof.
+  intros root ps used hubs row n Hs Hh. unfold wsdir.
+  apply str_eqb_neq in Hs. rewrite Hs.
+  destruct (str_mem n hubs) eqn:E; [apply str_mem_In in E; contradiction|].
+  destruct (used_of used n) as [|k u]; simpl; auto; try (destruct row; reflexivity).
+Qed.
+
+Section Plan.
+  Variables (root : str) (ps : list param) (used0 : list (str * list str)) (seen0 : list str).
+  Variables (L : list pre) (ds : list desc).
+  Hypothesis Hplan : plan_go root ps used0 seen0 L = Some ds.
+  Hypothesis Hnd : NoDup (map fst used0 ++ pre_names L).
+
+  Lemma plan_funnel : forall d n,
+    In d ds -> n <> SOURCE -> In n (hub_of (d_step d)) -> In n (map fst (d_dirs d)) ->
+    dir_of n (d_dirs d) = msp root [n].
+  Proof.
+    intros d n Hd Hs Hh Hk.
+    destruct (plan_go_in _ _ _ _ _ _ _ Hplan Hd) as [l1 [p [l2 [E Hin]]]].
+    apply step_descs_in in Hin. destruct Hin as [Est [_ [_ [_ [Edirs _]]]]].
+    rewrite Edirs in *. rewrite map_map in Hk. simpl in Hk. rewrite map_id in Hk.
+    rewrite dir_of_map; auto. apply wsdir_funnel; auto. rewrite <- Est. exact Hh.
+  Qed.
+
+  Lemma plan_ordinary : forall d d',
+    In d ds -> In d' ds ->
+    ~ In (s_name (d_step d')) (map fst used0) ->
+    ~ In (s_name (d_step d')) (hub_of (d_step d)) ->
+    In (s_name (d_step d')) (map fst (d_dirs d)) ->
+    (d_row d' = d_row d \/ d_row d' = None) ->
+    s_name (d_step d') <> SOURCE ->
+    dir_of (s_name (d_step d')) (d_dirs d) = d_ws d'.
+  Proof.
+    intros d d' Hd Hd' Hn0 Hh Hk Hrow Hs.
+    destruct (plan_go_in _ _ _ _ _ _ _ Hplan Hd) as [l1 [p [l2 [E Hin]]]].
+    destruct (plan_go_in _ _ _ _ _ _ _ Hplan Hd') as [l1' [p' [l2' [E' Hin']]]].
+    apply step_descs_in in Hin. destruct Hin as [Est [_ [_ [_ [Edirs _]]]]].
+    apply step_descs_in in Hin'. destruct Hin' as [Est' [Ews' [_ [_ [_ [Hu0 Hu1]]]]]].
+    set (n := s_name (d_step d')) in *.
+    rewrite Edirs in Hk. rewrite map_map in Hk. simpl in Hk. rewrite map_id in Hk.
+    rewrite Edirs, dir_of_map; auto.
+    rewrite used_go_fst in Hk. apply in_app_or in Hk. destruct Hk as [Hk|Hk]; [contradiction|].
+    unfold pre_names in Hk. apply in_map_iff in Hk. destruct Hk as [q [Eq Hq]].
+    apply in_split in Hq. destruct Hq as [a [b Eab]].
+    assert (EL : a ++ q :: (b ++ p :: l2) = l1' ++ p' :: l2').
+    { rewrite <- E'. rewrite E, Eab, <- app_assoc. reflexivity. }
+    assert (HndL : NoDup (pre_names L)).
+    { clear - Hnd. induction (map fst used0) as [|x m IH]; simpl in Hnd; auto.
+      inversion Hnd; auto. }
+    assert (Hsplit : a = l1' /\ q = p' /\ b ++ p :: l2 = l2').
+    { apply (NoDup_split_unique (fun p => s_name (pr_step p))); auto.
+      - unfold pre_names in HndL. rewrite EL, <- E'. exact HndL.
+      - rewrite Eq. unfold n. rewrite Est'. reflexivity. }
+    destruct Hsplit as [Ea [Eq' _]]. subst a q.
+    assert (Hu : used_of (used_go ps used0 l1) n = step_used ps (used_go ps used0 l1') p').
+    { rewrite Eab. rewrite <- Eq. apply used_of_used_go.
+      rewrite Eq. intros Hin. apply in_app_or in Hin. destruct Hin as [Hin|Hin]; [contradiction|].
+      (* the name of p' would repeat inside L *)
+      assert (Hrep : NoDup (pre_names (l1' ++ p' :: l2'))) by (rewrite <- E'; exact HndL).
+      unfold pre_names in Hrep. rewrite map_app in Hrep. simpl in Hrep.
+      apply NoDup_remove_2 in Hrep. apply Hrep. apply in_or_app. left.
+      fold (pre_names l1'). rewrite Eq. exact Hin. }
+    rewrite wsdir_ordinary; auto; [|rewrite <- Est; exact Hh].
+    rewrite Hu. rewrite Ews'. rewrite <- Est'. fold n.
+    destruct (step_used ps (used_go ps used0 l1') p') as [|k u] eqn:Eu.
+    - rewrite Hu0; auto.
+    - destruct Hu1 as [i [Ei _]]; [discriminate|]. rewrite Ei in *.
+      destruct Hrow as [Hrow|Hrow]; [|discriminate]. rewrite <- Hrow. reflexivity.
+  Qed.
+End Plan.
+
+(** ** ... for the plan of a valid case *)
+Lemma pre_go_names : forall m sts ord known,
+  pre_names (pre_go m sts known ord) = map (fun k => s_name (nth k sts dummy_step)) ord.
+Proof.
+  intros m sts. induction ord as [|k ord IH]; intros known; simpl; auto.
+  rewrite IH. reflexivity.
+Qed.
+
+Lemma steps_e_name : forall m c k,
+  s_name (nth k (steps_e m c) dummy_step) = nth k (map s_name (c_steps c)) [].
+Proof.
+  intros m c k. unfold steps_e.
+  change dummy_step with (step_map (env_pass m (env_build (c_env c))) dummy_step) at 1.
+  rewrite map_nth. simpl.
+  change (@nil N) with (s_name dummy_step). rewrite map_nth. reflexivity.
+Qed.
+
+Lemma pre_list_names : forall m c,
+  pre_names (pre_list m c) = map (fun k => nth k (map s_name (c_steps c)) []) (c_order c).
+Proof.
+  intros. unfold pre_list. rewrite pre_go_names. apply map_ext. intros k. apply steps_e_name.
+Qed.
+
+Lemma valid_pre_names : forall m c, valid_case c = true ->
+  NoDup (SOURCE :: pre_names (pre_list m c)).
+Proof.
+  intros m c H. apply valid_case_parts in H. destruct H as [Hnd [Hsrc [_ [_ [Hlt Hord]]]]].
+  rewrite pre_list_names. constructor.
+  - intros Hin. apply in_map_iff in Hin. destruct Hin as [k [E Hk]]. apply Hsrc.
+    rewrite <- E. apply nth_In. rewrite map_length. auto.
+  - apply NoDup_map_inj; auto. intros a b Ha Hb E.
+    rewrite (NoDup_nth (map s_name (c_steps c)) []) in Hnd. apply Hnd; auto;
+      rewrite map_length; auto.
+Qed.
+
+Theorem plan_ws_funnel : forall m c ds d n,
+  valid_case c = true -> plan m c = Some ds -> In d ds ->
+  In n (hub_of (d_step d)) -> n <> SOURCE -> In n (map fst (d_dirs d)) ->
+  dir_of n (d_dirs d) = msp (c_root c) [n].
+Proof.
+  intros m c ds d n Hv Hp Hd Hh Hs Hk. unfold plan in Hp.
+  eapply plan_funnel; eauto.
+Qed.
+
+Theorem plan_ws_ordinary : forall m c ds d d',
+  valid_case c = true -> plan m c = Some ds -> In d ds -> In d' ds ->
+  ~ In (s_name (d_step d')) (hub_of (d_step d)) ->
+  In (s_name (d_step d')) (map fst (d_dirs d)) ->
+  (d_row d' = d_row d \/ d_row d' = None) ->
+  dir_of (s_name (d_step d')) (d_dirs d) = d_ws d'.
+Proof.
+  intros m c ds d d' Hv Hp Hd Hd' Hh Hk Hrow. unfold plan in Hp.
+  pose proof (valid_pre_names m c Hv) as Hnd.
+  assert (Hs : s_name (d_step d') <> SOURCE).
+  { destruct (plan_go_in _ _ _ _ _ _ _ Hp Hd') as [l1 [p [l2 [E Hin]]]].
+    apply step_descs_in in Hin. destruct Hin as [Est _]. rewrite Est.
+    inversion Hnd; subst. intros F. apply H1. rewrite <- F, E. unfold pre_names.
+    rewrite map_app. apply in_or_app. right. left. reflexivity. }
+  eapply plan_ordinary; eauto.
+  simpl. intros [F|[]]. auto.
+Qed.
+
+(** the own workspace of every planned instance: root/step or root/step/combination *)
+Theorem plan_own_ws : forall m c ds d,
+  plan m c = Some ds -> In d ds ->
+  exists u, d_ws d = own_ws (c_root c) (c_params c) (s_name (d_step d)) u (d_row d) /\
+            d_name d = iname (c_params c) (s_name (d_step d)) u (d_row d).
+Proof.
+  intros m c ds d Hp Hd. unfold plan in Hp.
+  destruct (plan_go_in _ _ _ _ _ _ _ Hp Hd) as [l1 [p [l2 [E Hin]]]].
+  apply step_descs_in in Hin. destruct Hin as [Est [Ews [En _]]].
+  eexists. rewrite Est. split; eauto.
+Qed.
+
+(* ------------------------------------------------------------------------ *)
+(** * The pass structure of the written scripts *)
+Lemma apply_str_fix : forall f x, f [] = [] -> apply_str f x = f x.
+Proof. intros f [|c x] H; simpl; auto. Qed.
+
+Lemma env_pass_nil : forall m E, env_pass m E [] = [].
+Proof. reflexivity. Qed.
+
+Lemma param_pass_spec_nil : forall ps i, param_pass Spec ps i [] = [].
+Proof. reflexivity. Qed.
+
+Lemma pre_go_steps : forall m sts ord known p,
+  In p (pre_go m sts known ord) -> exists k, In k ord /\ pr_step p = nth k sts dummy_step.
+Proof.
+  intros m sts. induction ord as [|k ord IH]; intros known p H; simpl in H; [contradiction|].
+  destruct H as [H|H].
+  - exists k. split; [left; auto|]. subst p. reflexivity.
+  - destruct (IH _ _ H) as [k' [Hk' E]]. exists k'. split; [right; auto|auto].
+Qed.
+
+Lemma plan_step_origin : forall m c ds d,
+  valid_case c = true -> plan m c = Some ds -> In d ds ->
+  exists st0, In st0 (c_steps c) /\
+    d_step d = step_map (env_pass m (env_build (c_env c))) st0.
+Proof.
+  intros m c ds d Hv Hp Hd. unfold plan in Hp.
+  destruct (plan_go_in _ _ _ _ _ _ _ Hp Hd) as [l1 [p [l2 [E Hin]]]].
+  apply step_descs_in in Hin. destruct Hin as [Est _].
+  assert (Hpin : In p (pre_list m c)) by (rewrite E; apply in_or_app; right; left; reflexivity).
+  unfold pre_list in Hpin. apply pre_go_steps in Hpin. destruct Hpin as [k [Hk Ek]].
+  apply valid_case_parts in Hv. destruct Hv as [_ [_ [_ [_ [Hlt _]]]]].
+  exists (nth k (c_steps c) dummy_step). split; [apply nth_In; auto|].
+  rewrite Est, Ek. unfold steps_e.
+  change dummy_step with (step_map (env_pass m (env_build (c_env c))) dummy_step) at 1.
+  apply map_nth.
+Qed.
+
+Lemma step_p_spec_text : forall c d k st0,
+  d_step d = step_map (env_pass Spec (env_build (c_env c))) st0 ->
+  run_text k (step_p Spec (c_params c) d) = spec_field c d (run_text k st0).
+Proof.
+  intros c d k st0 E. unfold step_p, spec_field. cbv zeta.
+  destruct (d_row d) as [i|]; rewrite E.
+  - rewrite !run_text_step_map. rewrite apply_str_fix; [|reflexivity].
+    rewrite apply_str_fix; [|reflexivity]. reflexivity.
+  - rewrite run_text_step_map. apply apply_str_fix. reflexivity.
+Qed.
+
+Theorem script_passes : forall c ds,
+  valid_case c = true -> hyg c = true -> plan Spec c = Some ds ->
+  stage Model c = Staged (map (inst_of Spec (c_params c) (c_shell c)) ds) /\
+  forall d, In d ds -> exists st0,
+    In st0 (c_steps c) /\ s_name st0 = s_name (d_step d) /\
+    let i := inst_of Spec (c_params c) (c_shell c) d in
+    i_script i = script_text (c_shell c) (spec_text c d (run_text "cmd" st0)) /\
+    i_rscript i = match spec_text c d (run_text "restart" st0) with
+                  | [] => None
+                  | _ => Some (script_text (c_shell c) (spec_text c d (run_text "restart" st0)))
+                  end.
+Proof.
+  intros c ds Hv Hh Hp. split.
+  - rewrite (stage_model_eq_spec c Hh). unfold stage. rewrite Hp. reflexivity.
+  - intros d Hd. destruct (plan_step_origin Spec c ds d Hv Hp Hd) as [st0 [Hin E]].
+    exists st0. split; auto. split; [rewrite E; reflexivity|].
+    cbv zeta. unfold inst_of. cbv zeta. simpl i_script. simpl i_rscript.
+    rewrite !(step_p_spec_text c d _ st0 E). unfold spec_text. split; reflexivity.
+Qed.
+
+(* ------------------------------------------------------------------------ *)
+(** * The core law with decidable hypotheses (the form quoted in Props/C09.v) *)
+Theorem core_seq_eq_sim : forall (T l : table) (x : str),
+  wf_tableb T = true -> Permutation l T -> token_free T (sim T x) = true ->
+  seq l x = sim T x.
+Proof. intros T l x H. apply seq_eq_sim. apply wf_tableb_spec. exact H. Qed.
+
+Theorem core_seq_eq_sim_gen : forall (T l : table) (x : str),
+  wf_tableb T = true ->
+  (forall e, In e l -> In e T) ->
+  (forall t, In t (tokens T) -> occursb t x = true -> In t (tokens l)) ->
+  token_free T (sim T x) = true ->
+  seq l x = sim T x.
+Proof.
+  intros T l x H Hi Hc Hf. apply seq_eq_sim_gen; auto.
+  - apply wf_tableb_spec. exact H.
+  - intros t Ht Ho. apply Hc; auto. apply occursb_spec. exact Ho.
+Qed.
+
+Theorem core_no_token_survives : forall (T l : table) (x : str),
+  wf_tableb T = true -> Permutation l T -> token_free T (sim T x) = true ->
+  forall t, In t (tokens T) -> occursb t (seq l x) = false.
+Proof.
+  intros T l x H Hp Hf t Ht. rewrite (core_seq_eq_sim T l x H Hp Hf).
+  unfold token_free in Hf. rewrite forallb_forall in Hf. apply negb_true_iff. auto.
+Qed.
+
+Theorem core_order_irrelevant : forall (T l1 l2 : table) (x : str),
+  wf_tableb T = true -> Permutation l1 T -> Permutation l2 T ->
+  token_free T (sim T x) = true -> seq l1 x = seq l2 x.
+Proof. intros T l1 l2 x H. apply seq_order_irrelevant. apply wf_tableb_spec. exact H. Qed.
+
+Theorem core_untouched : forall (T l : table) (x : str),
+  wf_tableb T = true -> Permutation l T -> token_free T (sim T x) = true ->
+  exists L : list item,
+    x = src L /\ seq l x = dst L /\
+    (forall t v, In (K t v) L -> In (t, v) T) /\
+    (forall L1 c L2, L = L1 ++ C c :: L2 -> lookup_prefix T (c :: src L2) = None).
+Proof. intros T l x H. apply seq_decomposition. apply wf_tableb_spec. exact H. Qed.
+
+Theorem core_sim_token : forall (T : table) t v r,
+  wf_tableb T = true -> In (t, v) T -> sim T (t ++ r) = v ++ sim T r.
+Proof. intros T t v r H. apply sim_token. apply wf_tableb_spec. exact H. Qed.
+
+Theorem core_sim_char : forall (T : table) c r,
+  (forall t, In t (tokens T) -> prefixb t (c :: r) = false) -> sim T (c :: r) = c :: sim T r.
+Proof. exact sim_char. Qed.
+
+(** [src] / [dst] of a decomposition, spelled out *)
+Lemma src_dst_spec : forall L,
+  src L = flat_map (fun it => match it with C c => [c] | K t _ => t end) L /\
+  dst L = flat_map (fun it => match it with C c => [c] | K _ v => v end) L.
+Proof.
+  intros L. unfold src, dst, render. split; apply flat_map_ext; intros [c|t v]; reflexivity.
+Qed.
+
+(* ------------------------------------------------------------------------ *)
+(** * Statements in the form quoted by Props/C09.v *)
+Theorem recursion_pyval : forall (f : str -> str) (v : pyval),
+  strings_of (apply_function f v) = map (apply_str f) (strings_of v) /\
+  skeleton (apply_function f v) = skeleton v.
+Proof. intros f v. exact (conj (strings_apply_function f v) (skeleton_apply_function f v)). Qed.
+
+Theorem recursion_step : forall (f : str -> str) (st : step),
+  step_strings (step_map f st) = map (apply_str f) (step_strings st) /\
+  s_name (step_map f st) = s_name st /\
+  map fst (s_run (step_map f st)) = map fst (s_run st).
+Proof.
+  intros f st. split; [exact (step_strings_map f st)|]. split; [reflexivity|].
+  unfold step_map, apply_dict. simpl. rewrite map_map. reflexivity.
+Qed.
+
+Theorem spec_text_unfold : forall (c : case) (d : desc) (x0 : str),
+  spec_text c d x0 =
+  sim (rec_T d) (sim (ws_T d)
+    (match d_row d with
+     | None => env_pass Spec (env_build (c_env c)) x0
+     | Some i => sim (param_table (c_params c) i) (env_pass Spec (env_build (c_env c)) x0)
+     end)).
+Proof. intros c d x0. unfold spec_text, spec_field. destruct (d_row d); reflexivity. Qed.
+
+Theorem env_pass_unfold : forall (E : envt) (x : str),
+  env_pass Spec E x = match x with
+                      | [] => []
+                      | _ => sim (e_subs E) (sim (e_deps E) (sim (e_labels E) x))
+                      end.
+Proof. intros E [|c x]; reflexivity. Qed.
+
+Theorem C09_main : forall c : case, valid_case c = true -> hyg c = true -> C09_ok c (stage Model c) = true.
+Proof. intros c _. exact (C09_ok_model c). Qed.
